@@ -80,6 +80,29 @@ def on_family(tier):
            ['SELECT x.a, y.c FROM int1.t1 AS x %s int2.t2 AS y ON %s WHERE x.a > 0' % (j, on) for j in js[:2] for on in ON_SHAPES[:6]]
 
 
+# set operations across integrations: operator x ALL x member shapes (a member's own DISTINCT / GROUP BY / ORDER BY..LIMIT / OFFSET decides which
+# rows it contributes; duplicates inside and across members matter for the operator) x a tail on the combined result
+SETOPS = ['UNION', 'UNION ALL', 'INTERSECT', 'EXCEPT']
+SET_LEFT = ['SELECT a FROM int1.t1', '(SELECT a FROM int1.t1 ORDER BY a LIMIT 1)', '(SELECT a FROM int1.t1 ORDER BY a DESC LIMIT 2)', '(SELECT a FROM int1.t1 ORDER BY a LIMIT 1 OFFSET 1)',
+            '(SELECT a FROM int1.t1 ORDER BY id LIMIT 1 OFFSET 1)',
+            'SELECT DISTINCT a FROM int1.t1', 'SELECT a FROM int1.t1 WHERE b > 0', 'SELECT a FROM int1.t1 GROUP BY a', 'SELECT count(*) FROM int1.t1', 'SELECT a, b FROM int1.t1']
+SET_RIGHT = ['SELECT c FROM int2.t2', 'SELECT DISTINCT c FROM int2.t2', 'SELECT c FROM int2.t2 WHERE c IS NOT NULL', 'SELECT id, c FROM int2.t2']
+
+
+def setop_family(tier):
+    out = []
+    for op in SETOPS:
+        for l in SET_LEFT:
+            for r in SET_RIGHT:
+                if (l.count(',') > 0) != (r.count(',') > 0):
+                    continue
+                out.append('%s %s %s' % (l, op, r))
+    out += ['SELECT a FROM int1.t1 %s SELECT c FROM int2.t2 %s SELECT d FROM int1.t3' % (o1, o2) for o1 in SETOPS for o2 in SETOPS]
+    if tier == 'quick':
+        out = [q for i, q in enumerate(out) if i % 2 == 0 or 'LIMIT' in q]
+    return out
+
+
 def nested_family(tier):
     return ['SELECT %s FROM (%s) AS s%s' % (tg, inner, tail) for inner in NEST_INNER for tg, tail in NEST_OUTER]
 
@@ -101,7 +124,7 @@ def family(tier):
         sqls.append(sql)
     # deterministic de-dup preserving order
     seen, res = set(), []
-    for s_ in sqls + EXTRA + atom_family(tier) + nested_family(tier) + on_family(tier):
+    for s_ in sqls + EXTRA + atom_family(tier) + nested_family(tier) + on_family(tier) + setop_family(tier):
         if s_ not in seen:
             seen.add(s_)
             res.append(s_)
@@ -153,6 +176,7 @@ def check_member(sql, R, D, timeout_ms=120000):
     s.set('timeout', timeout_ms)
     s.add(db.constraints + ev.assumptions + pi.assumptions)
     unordered_limit = (orig.limit is not None and not orig.order_by) if hasattr(orig, 'limit') else False
+    ordered = False
     if unordered_limit:
         if orig.offset is not None:
             return dict(info, status='unsupported', reason='LIMIT/OFFSET without ORDER BY: any rows are a valid answer')
@@ -169,10 +193,19 @@ def check_member(sql, R, D, timeout_ms=120000):
         s.add(z3.Or(not_sub, n_got != z3.If(n_full < k, n_full, k)))
         want = full
     else:
-        s.add(SR.bags_differ(got, want))
+        ordered = bool(getattr(orig, 'order_by', None)) and hasattr(want, '_ranks')
+        if ordered and not hasattr(got, '_ranks'):
+            # the query fixes the order but no step of the plan establishes it on the final result
+            info['order_not_established_by_plan'] = True
+            ordered = False
+        if ordered:
+            # same rows in the same order: bags of (row, position), positions unique under the tie-free assumption
+            s.add(SR.bags_differ(SR.with_rank(got), SR.with_rank(want)))
+        else:
+            s.add(SR.bags_differ(got, want))
     t0 = time.time()
     r = str(s.check())
-    out = dict(info, solver_s=round(time.time() - t0, 4), obligation='valid-answer' if unordered_limit else 'bag-equality')
+    out = dict(info, solver_s=round(time.time() - t0, 4), obligation='valid-answer' if unordered_limit else ('sequence-equality' if ordered else 'bag-equality'))
     if r == 'unsat':
         out['status'] = 'discharged'
     elif r == 'sat':
@@ -213,6 +246,15 @@ def replay_member(sql, witness):
     if str(s.check()) != 'sat':
         return False, {'note': 'witness database does not fit'}
     got = SR.concrete_rows(got_rel, s.model())
+    o0 = parse_sql(sql, 'mindsdb')
+    seq = bool(getattr(o0, 'order_by', None)) and hasattr(got_rel, '_ranks')
+    if seq:
+        # the plan's rows in the order its last step establishes
+        s.add(pi.assumptions)
+        if str(s.check()) != 'sat':
+            return False, {'note': 'witness database has ties in a sort key'}
+        ranked = SR.concrete_rows(SR.with_rank(got_rel), s.model())
+        got = [r[:-1] for r in sorted(ranked, key=lambda r: r[-1])]
     fetch_ok = True
     for st in plan.steps:
         if isinstance(st, S.FetchDataframeStep) and ':Result' not in str(st.query):
@@ -229,7 +271,7 @@ def replay_member(sql, witness):
                     fetch_ok = False
             except Exception:  # noqa
                 pass
-    differs = sorted(map(repr, got)) != sorted(map(repr, want))
+    differs = (list(map(repr, got)) != list(map(repr, want))) if seq else (sorted(map(repr, got)) != sorted(map(repr, want)))
     # for LIMIT without ORDER BY any k rows are fine: only a cardinality / containment difference counts
     from mindsdb_sql import parse_sql as _p
     o = _p(sql, 'mindsdb')
